@@ -255,6 +255,9 @@ func (x *Exec) callStatic0(fr *Frame, st *State, fn *ssa.Function, args, bind []
 	if x.monitorCall(fr, st, fn, args, pos) {
 		return nil
 	}
+	if x.waitGroupCall(fr, st, fn, args, pos) {
+		return nil
+	}
 	if r, ok := x.modelCall(fr, st, fn, name, args, resT, pos); ok {
 		return r
 	}
@@ -676,6 +679,12 @@ func (x *Exec) checkEnsures(fr *Frame, st *State, vals []*Value, pos token.Pos) 
 		t := x.evalClause(fr, e, st, fr.entry, extra)
 		x.oblige(fr, st, "ensures", "", e.Label, t, pos, e.Src)
 	}
+	// goroutine bodies: Done() is called exactly once on each WaitGroup named by `signals`
+	for _, sg := range c.Signals {
+		if p := x.signalTarget(fr.fn, fr.bind, fr.params, sg, fr.entry, c); p != nil {
+			x.oblige(fr, st, "sync", "", "signals-exactly-once:"+sg.Src, Eq(x.ghostGet(st, gWgDone, IntSort, p), Add(x.ghostGet(fr.entry, gWgDone, IntSort, p), IntLit(1))), pos, sg.Src)
+		}
+	}
 	// stable predicates of a closure: true before the call implies true after it
 	for _, e := range c.Stable {
 		pre := x.stableTerm(fr, e, fr.entry)
@@ -787,6 +796,10 @@ func (x *Exec) checkFrame(fr *Frame, st *State, pos token.Pos) {
 		for _, loc := range x.lvalueLocs(env, a) {
 			allowed[loc.key] = append(allowed[loc.key], loc.ref)
 		}
+	}
+	if st.havocID != 0 {
+		// an unmodelled call may have written anything, including arrays this function never reads
+		x.oblige(fr, st, "frame", "*", "", False, pos, "assigns (an unmodelled call on some path may write anything)")
 	}
 	var keys []string
 	for k := range st.heap {
